@@ -316,7 +316,7 @@ def exc_family(e):
 # independent oracle 1: recursive enumeration of the elaborated design (live objects, forward lists)
 # --------------------------------------------------------------------------------------------
 class Elab:
-    def __init__(self, nl, ids, max_nodes=20000):
+    def __init__(self, nl, ids, max_nodes=400):
         self.ids = ids
         self.inst_paths = []      # root-first tuples of Instance objects
         t = nl.top_instance
@@ -664,6 +664,12 @@ def check_c11(res, sess, recipe, rng, tier_scale, edits=None, tag="gen"):
     st = sess.load(design)
     if not (st["wf"] and st["wfnet"] and st["sorted"]):
         res["obligations"].append(("hier: dumped design satisfies WF, WFNet and Sorted", False, json.dumps(recipe)[:1500]))
+        return
+    from common import canon
+    probs = canon.wf_problems(b.nl)
+    if probs:
+        res["obligations"].append(("hier: generated netlist is well-formed on the live objects (canon.wf_problems)", False,
+                                   "; ".join(probs[:5]) + " " + json.dumps(recipe)[:800]))
         return
     elab = Elab(b.nl, ids)
     if elab.overflow:
@@ -1181,11 +1187,13 @@ def _shrink_failures(pid, res, sess, rng, tier, t_end):
     for s in res["spec"]:
         by_sig.setdefault(s["signature"], s)
     out = []
-    for sig, s in by_sig.items():
+    n_shrunk = 0
+    for sig, s in sorted(by_sig.items(), key=lambda kv: len(json.dumps(kv[1]["input"], default=str))):
         rec0 = s["input"].get("recipe")
-        if rec0 is None or time.time() > t_end:
+        if rec0 is None or time.time() > t_end or n_shrunk >= 6:
             out.append(s)
             continue
+        n_shrunk += 1
         edits = s["input"].get("edits")
 
         def fails(r2, sig=sig, edits=edits):
@@ -1196,7 +1204,7 @@ def _shrink_failures(pid, res, sess, rng, tier, t_end):
             else:
                 check_c12(tmp, sess, r2, rng, (25, 10))
             return any(x["signature"] == sig for x in tmp["spec"])
-        small = shrink(rec0, fails, budget_s=min(25.0, max(1.0, t_end - time.time())))
+        small = shrink(rec0, fails, budget_s=min(12.0, max(1.0, t_end - time.time())))
         tmp = shard.ShardResult()
         e2 = [e[:-1] if isinstance(e[-1], str) else e for e in edits] if edits else None
         if pid == "C11":
@@ -1231,7 +1239,7 @@ def _shard(pid, seed, idx, n_cases, tier, t_budget, items=None):
                     it["edits"] = gen_edits(rng, r, rng.randint(1, 4))
                 _run_one(pid, res, sess, it, rng, tier)
         if res["spec"]:
-            _shrink_failures(pid, res, sess, rng, tier, t_end + 40)
+            _shrink_failures(pid, res, sess, rng, tier, time.time() + 40)
     finally:
         sess.close()
     gc.collect()
